@@ -8,6 +8,7 @@ import (
 	"strings"
 
 	"verif/engine"
+	"verif/harness/c18"
 	"verif/gen"
 
 	"github.com/sdcio/yang-parser/schema"
@@ -18,7 +19,7 @@ func init() {
 		Prop:   "C17",
 		Run:    run,
 		Replay: replay,
-		Rule: "E1 over (schema x token path): 8 schemas built by the real compiler (presence and non-presence containers, list with typed key, leaves of several types, empty leaf, leaf-list, nested choice/case, leaves with defaults of their own and from a typedef, a mandatory leaf, two-key lists) x every token path up to the length bound over an alphabet of every node name of the schema, valid and invalid values per type, a foreign name and the empty string, x AllowIncompletePaths (every path is validated with incomplete paths allowed, then strictly, then allowed again, on the same compiled schema); ModelSet.Validate must accept iff a reference walker over the generator's own schema description accepts, and for a rejected path the error must mention the first offending element (or, for an incomplete path, the element it ends on). " +
+		Rule: "E1 over (schema x token path): (1) every schema forest of the C18 generator with <= 3 (thorough: <= 4) nodes, leaf types assigned in rotation (string, uint8, boolean, enumeration, empty), x every token path of <= 4 (5) tokens over the schema's names and 6 values, dead prefixes of >= 2 tokens pruned; (2) 8 hand-written deeper schemas built by the real compiler (presence and non-presence containers, list with typed key, leaves of several types, empty leaf, leaf-list, nested choice/case, leaves with defaults of their own and from a typedef, a mandatory leaf, two-key lists) x every token path up to the length bound over an alphabet of every node name of the schema, valid and invalid values per type, a foreign name and the empty string, x AllowIncompletePaths (every path is validated with incomplete paths allowed, then strictly, then allowed again, on the same compiled schema); ModelSet.Validate must accept iff a reference walker over the generator's own schema description accepts, and for a rejected path the error must mention the first offending element (or, for an incomplete path, the element it ends on). " +
 			"Subtrees below a prefix both sides reject for its last token are not extended (the walk is left-to-right and prefix-determined; pruned subtrees are counted). Non-trivial = the path has >= 2 tokens.",
 		Bound: map[string]string{
 			"quick":    "paths of <= 5 tokens (no pruning below 4 tokens)",
@@ -214,13 +215,54 @@ func names(kids []*sn, out map[string]bool) {
 }
 
 type rec struct {
-	Schema     int      `json:"schema"`
+	Schema     int      `json:"schema"` // index into schemas(); -1: Gen holds a generated schema
+	Gen        []*sn    `json:"gen,omitempty"`
 	Path       []string `json:"path"`
 	Incomplete bool     `json:"incomplete"`
 	Prior      []bool   `json:"prior,omitempty"` // modes in which the same path was validated before on this schema
 }
 
 var compiled = map[int]schema.ModelSet{}
+
+func (r rec) kids() []*sn {
+	if r.Schema < 0 {
+		return r.Gen
+	}
+	return schemas()[r.Schema]
+}
+
+var genCache struct {
+	text string
+	ms   schema.ModelSet
+	msg  string
+}
+
+func modelOf(r rec) (schema.ModelSet, string) {
+	if r.Schema >= 0 {
+		return modelFor(r.Schema)
+	}
+	return compileKids(r.Gen)
+}
+
+func compileKids(kids []*sn) (schema.ModelSet, string) {
+	var b strings.Builder
+	b.WriteString("module a { namespace \"urn:a\"; prefix a;")
+	for _, k := range kids {
+		b.WriteString(" " + k.yang())
+	}
+	b.WriteString(" }")
+	if genCache.text == b.String() {
+		return genCache.ms, genCache.msg
+	}
+	r := gen.Compile(map[string]string{"a": b.String()}, gen.Options{})
+	genCache.text, genCache.ms, genCache.msg = b.String(), nil, ""
+	if !r.OK() {
+		genCache.msg = fmt.Sprintf("%s: %v %v\n%s", r.Verdict(), r.Err, r.Panic, b.String())
+		return nil, genCache.msg
+	}
+	genCache.ms = r.MS
+	return r.MS, ""
+}
 
 func modelFor(si int) (schema.ModelSet, string) {
 	if ms, ok := compiled[si]; ok {
@@ -241,15 +283,23 @@ func modelFor(si int) (schema.ModelSet, string) {
 }
 
 func check(r rec) (vs []engine.Violation, implOK, refOK bool) {
-	ms, msg := modelFor(r.Schema)
+	ms, msg := modelOf(r)
 	mk := func(key, detail string) {
-		vs = append(vs, engine.Violation{Key: key, Witness: fmt.Sprintf("schema %d path %q incomplete=%v", r.Schema, r.Path, r.Incomplete), Detail: detail, Harness: "path", Replay: engine.JSON(r)})
+		w := fmt.Sprintf("schema %d path %q incomplete=%v", r.Schema, r.Path, r.Incomplete)
+		if r.Schema < 0 {
+			var parts []string
+			for _, k := range r.Gen {
+				parts = append(parts, k.yang())
+			}
+			w = fmt.Sprintf("schema {%s} path %q incomplete=%v", strings.Join(parts, " "), r.Path, r.Incomplete)
+		}
+		vs = append(vs, engine.Violation{Key: key, Witness: w, Detail: detail, Harness: "path", Replay: engine.JSON(r)})
 	}
 	if ms == nil {
 		mk("schema-does-not-compile", msg)
 		return
 	}
-	refOK, bad := walkRef(schemas()[r.Schema], r.Path, r.Incomplete)
+	refOK, bad := walkRef(r.kids(), r.Path, r.Incomplete)
 	var err error
 	var p any
 	func() {
@@ -284,7 +334,7 @@ func check(r rec) (vs []engine.Violation, implOK, refOK bool) {
 // pathShape abstracts the path: kinds of the nodes walked.
 func pathShape(r rec) string {
 	var parts []string
-	cur := visible(schemas()[r.Schema])
+	cur := visible(r.kids())
 	var node *sn
 	for _, tok := range r.Path {
 		if node != nil && node.Kind == "list" {
@@ -318,7 +368,104 @@ func pathShape(r rec) string {
 	return fmt.Sprintf("incomplete=%v:%s", r.Incomplete, strings.Join(parts, "/"))
 }
 
+// fromC18 converts a schema of the C18 generator; leaves get types in rotation (a leaf with a
+// default stays a string: the generator's default value is a string).
+func fromC18(kids []*c18.S, n *int) []*sn {
+	types := []string{"string", "uint8", "boolean", "enum", "empty"}
+	var out []*sn
+	for _, k := range kids {
+		x := &sn{Kind: k.Kind, Name: k.Name, Presence: k.Presence, Key: k.Key, Default: k.Default, Mandatory: k.Mandatory}
+		if k.Kind == "leaf" || k.Kind == "leaf-list" {
+			x.Type = "string"
+			if k.Default == "" && !(k.Kind == "leaf-list") {
+				x.Type = types[*n%len(types)]
+				*n++
+			}
+			if k.Kind == "leaf-list" {
+				x.Type = []string{"string", "uint8", "enum"}[*n%3]
+				*n++
+			}
+			if k.Kind == "leaf" && k.Mandatory && x.Type == "empty" {
+				x.Type = "uint8"
+			}
+		}
+		if k.Kind == "choice" {
+			x.Default = "" // (choice defaults do not matter for path validation and need case names)
+		}
+		x.Kids = fromC18(k.Kids, n)
+		out = append(out, x)
+	}
+	return out
+}
+
+func runGenerated(c *engine.Ctx) {
+	sb, maxLen := 3, 4
+	if !c.Quick() {
+		sb, maxLen = 4, 5
+	}
+	all := c18.GenSchemas(sb)
+	c.Note(fmt.Sprintf("%d generated schemas of <= %d nodes x all token paths of <= %d tokens x 3 validations", len(all), sb, maxLen))
+	for gi, g := range all {
+		if c.Expired() {
+			return
+		}
+		if !c.Owns(fmt.Sprintf("gen:%d", gi)) {
+			continue
+		}
+		n := gi
+		kids := fromC18(g, &n)
+		if ms, _ := compileKids(kids); ms == nil {
+			c.Add("generated_schemas_rejected_by_the_compiler", 1)
+			continue
+		}
+		nm := map[string]bool{}
+		names(kids, nm)
+		var toks []string
+		for t := range nm {
+			toks = append(toks, t)
+		}
+		sort.Strings(toks)
+		toks = append(toks, "x", "7", "256", "true", "green", "")
+		var walk func(p []string)
+		walk = func(p []string) {
+			dead := false
+			if len(p) > 0 {
+				for round, inc := range []bool{true, false, true} {
+					r := rec{Schema: -1, Gen: kids, Path: append([]string{}, p...), Incomplete: inc, Prior: []bool{true, false, true}[:round]}
+					if !c.Case(fmt.Sprintf("g%d:%v:%d:%q", gi, inc, round, p)) {
+						continue
+					}
+					c.Add("states", 1)
+					c.Nontrivial()
+					vs, implOK, refOK := check(r)
+					c.Outcome(fmt.Sprintf("ref=%v:impl=%v", refOK, implOK))
+					for _, v := range vs {
+						c.Report(v)
+					}
+					// a prefix of >= 2 tokens that both reject even as an incomplete path is dead:
+					// its extensions are not enumerated (extensions of 1-token dead prefixes are)
+					if round == 0 && !implOK && !refOK && len(p) >= 2 {
+						dead = true
+					}
+				}
+			}
+			if len(p) == maxLen || dead {
+				if dead {
+					c.Add("pruned_subtrees", 1)
+				}
+				return
+			}
+			for _, t := range toks {
+				c.Add("transitions", 1)
+				walk(append(append([]string{}, p...), t))
+			}
+		}
+		walk(nil)
+	}
+}
+
 func run(c *engine.Ctx) {
+	runGenerated(c)
 	maxLen, noPrune := 5, 4
 	if !c.Quick() {
 		maxLen, noPrune = 7, 5
@@ -399,10 +546,10 @@ func recOf(si int, p []string, inc bool) rec {
 
 func replay(c *engine.Ctx, sub string, raw json.RawMessage) []engine.Violation {
 	var r rec
-	if json.Unmarshal(raw, &r) != nil || r.Schema < 0 || r.Schema >= len(schemas()) {
+	if json.Unmarshal(raw, &r) != nil || r.Schema >= len(schemas()) || (r.Schema < 0 && len(r.Gen) == 0) {
 		return []engine.Violation{{Key: "harness-bad-replay-file"}}
 	}
-	if ms, _ := modelFor(r.Schema); ms != nil {
+	if ms, _ := modelOf(r); ms != nil {
 		for _, inc := range r.Prior { // the validations of this path that came before on the same schema
 			func() {
 				defer func() { recover() }()
